@@ -108,22 +108,22 @@ theorem plus_gt_tilde_spacing (p : Prefs) (il : Nat) (o : O) (c : Nat) (hc : c =
 /-- T6.3 `content_effect` (rules; full statement: `project (parse (lex (ser p d))) = project (effect p d)` — the
 parse/lex half is C03's round trip, this is the serializer half): for EVERY preference record, serializing the sheet
 equals serializing the sheet from which the suppressed rules — comments (`keepComments`), unknown at-rules
-(`keepUnknownAtRules`), unused namespace rules (`keepUsedNamespaceRulesOnly`) — have been removed at every nesting
-depth. One theorem over the whole record: all combinations at once. -/
+(`keepUnknownAtRules`), style rules whose block is written as the empty text (`keepEmptyRules`), unused namespace rules
+(`keepUsedNamespaceRulesOnly`) — have been removed at every nesting depth. One theorem over the whole record: all combinations at once. -/
 theorem content_effect_rules_partial (p : Prefs) (sl : Nat) (s : Sheet) :
     doSheet p sl (effectSheet p s) = doSheet p sl s :=
   doSheet_effect p sl s
 
 /-- … and the transformed sheet really contains none of them at its top level -/
 theorem effect_removes_suppressed_rules (p : Prefs) (s : Sheet) :
-    ∀ r ∈ (effectSheet p s).rules, r.dropped p = false ∧ nsDropped p s.usedUris r = false := by
+    ∀ r ∈ (effectSheet p s).rules, r.dropped p 0 = false ∧ nsDropped p s.usedUris r = false := by
   intro r hr
-  refine ⟨effectRules_none_dropped p _ r hr, ?_⟩
-  have := filter_ns_effectRules p s.usedUris (s.rules.filter fun r => !nsDropped p s.usedUris r) (by
+  refine ⟨effectRules_none_dropped p 0 _ r hr, ?_⟩
+  have := filter_ns_effectRules p 0 s.usedUris (s.rules.filter fun r => !nsDropped p s.usedUris r) (by
     intro x hx
     have := (List.mem_filter.mp hx).2
     simpa using this)
-  have hr' : r ∈ (effectRules p (s.rules.filter fun r => !nsDropped p s.usedUris r)).filter
+  have hr' : r ∈ (effectRules p 0 (s.rules.filter fun r => !nsDropped p s.usedUris r)).filter
       (fun r => !nsDropped p s.usedUris r) := by rw [this]; exact hr
   have := (List.mem_filter.mp hr').2
   simpa using this
